@@ -302,4 +302,19 @@ theorem loop_rule
 
 end
 
+/-! ### `check_gone`'s three steps, as one record update -/
+
+/-- the three steps of `markGone` in the order of the source: the callback sees the returncode
+    already set and the process already in `gone` -/
+theorem markGone_eq (hasCb : Bool) (w : WP) (pid : Nat) (v : Option Int) :
+    markGone hasCb w pid v =
+      { w with objs := fun q => if q = pid then { w.objs pid with returncode := some v } else w.objs q
+               gone := if pid ∈ w.gone then w.gone else w.gone ++ [pid]
+               cbLog := if hasCb then w.cbLog ++ [pid] else w.cbLog
+               cbSeen := if hasCb then w.cbSeen ++ [⟨pid, some (v), true⟩] else w.cbSeen } := by
+  cases hasCb
+  · simp [markGone, stepCallback, stepAddGone, stepSetRc]
+  · by_cases h : pid ∈ w.gone <;> simp [markGone, stepCallback, stepAddGone, stepSetRc, h]
+
+
 end Psutil.C15
